@@ -1,17 +1,20 @@
 #!/usr/bin/env python3
-"""maintenance helper: apply a patch to /repo, run the given checks with the evidence redirected, undo the patch.
+"""maintenance helper: apply a patch to a scratch copy of /repo's working tree (never to /repo itself), run the given checks against the
+copy with the evidence redirected, remove the copy.
 usage: tools/try_patch.py <patch> <ID> [<ID> ...]"""
 import subprocess, os, sys, tempfile, shutil
 patch, pids = os.path.abspath(sys.argv[1]), sys.argv[2:]
-subprocess.run("git -C /repo apply %s" % patch, shell=True, check=True)
+scratch = tempfile.mkdtemp(prefix="try-patch-")
+subprocess.run("rsync -a --exclude target --exclude .git /repo/ %s/ && cd %s && patch -p1 -s < %s" % (scratch, scratch, patch), shell=True, check=True)
 try:
     for pid in pids:
         evd = tempfile.mkdtemp()
-        p = subprocess.run("./verif check %s" % pid, shell=True, cwd="/verif", env=dict(os.environ, VERIF_EVIDENCE_DIR=evd), stdout=subprocess.PIPE, text=True)
+        p = subprocess.run("./verif check %s" % pid, shell=True, cwd="/verif", env=dict(os.environ, VERIF_EVIDENCE_DIR=evd, VERIF_REPO=scratch),
+                           stdout=subprocess.PIPE, text=True)
         print(pid, "exit", p.returncode)
         for l in p.stdout.splitlines():
             if l.startswith("  rule"):
                 print("   ", l.strip()[:260])
         shutil.rmtree(evd, ignore_errors=True)
 finally:
-    subprocess.run("git -C /repo checkout -- .", shell=True)
+    shutil.rmtree(scratch, ignore_errors=True)
